@@ -18,7 +18,14 @@ def strip_comments(s):
     s = re.sub(r"/\*.*?\*/", lambda m: "\n" * m.group(0).count("\n"), s, flags=re.S)
     return re.sub(r"//[^\n]*", "", s)
 
-def scan_header(rel):
+def all_macro_names():
+    names = set()
+    for h in public_headers():
+        src = re.sub(r"\\\n", " ", strip_comments(open(os.path.join(REPO, "include", h)).read()))
+        names |= set(re.findall(r'^[ \t]*#[ \t]*define[ \t]+(\w+)', src, flags=re.M))
+    return names
+
+def scan_header(rel, macros=frozenset()):
     """facts of one header, in order of appearance"""
     src = strip_comments(open(os.path.join(REPO, "include", rel)).read())
     src = re.sub(r"\\\n", " ", src)
@@ -51,10 +58,18 @@ def scan_header(rel):
         # "} Name;" closing a typedef'd struct/enum/union
         before = src[:m.start()]
         depth_open = before.rfind("typedef")
-        if depth_open >= 0:
+        if depth_open >= 0 and m.group(1) not in macros:
             pos_items.append((m.start(), {"kind": "typedef", "name": m.group(1)}))
     for m in re.finditer(r'^[ \t]*(?:[\w\*]+[ \t]+)+\**[ \t]*((?:Avtp|avtp)_\w+|IsFieldDescriptorValid)\s*\(', src, flags=re.M):
         pos_items.append((m.start(), {"kind": "function", "name": m.group(1)}))
+    # uses: a name that some public header defines as a macro, appearing in the header's own declarations (not in a directive).
+    # If it is not a macro at that point the declaration means something else (or does not compile).
+    code = re.sub(r'^[ \t]*#[^\n]*', lambda m_: " " * len(m_.group(0)), src, flags=re.M)
+    seen_use = set(f["name"] for _, f in pos_items if f["kind"] in ("enumerator", "typedef", "function", "tag"))   # its own declarations are not uses
+    for m in re.finditer(r'\b[A-Za-z_]\w*\b', code):
+        n_ = m.group(0)
+        if n_ in macros and n_ not in seen_use:
+            seen_use.add(n_); pos_items.append((m.start(), {"kind": "use", "name": n_}))
     pos_items.sort(key=lambda x: x[0])
     for _, f in pos_items:
         f["h"] = rel
@@ -63,7 +78,8 @@ def scan_header(rel):
     return facts
 
 def scan_headers():
-    return {h: scan_header(h) for h in public_headers()}
+    macros = frozenset(all_macro_names())
+    return {h: scan_header(h, macros) for h in public_headers()}
 
 # ------------------------------------------------------------------ meanings from the compiler
 PROBE_C = r'''
@@ -76,14 +92,31 @@ int main(void) {
 }
 '''
 
+def own_preprocessed(rel):
+    """the header preprocessed on its own (macros expanded), restricted to the lines that come from the header itself"""
+    inc = os.path.join(REPO, "include")
+    r = subprocess.run(["gcc", "-E", "-std=gnu99", "-I" + inc, os.path.join(inc, rel)], capture_output=True, text=True)
+    if r.returncode != 0:
+        return strip_comments(open(os.path.join(inc, rel)).read())
+    out, mine = [], False
+    for ln in r.stdout.split("\n"):
+        m = re.match(r'# \d+ "([^"]*)"', ln)
+        if m:
+            mine = os.path.abspath(m.group(1)) == os.path.abspath(os.path.join(inc, rel)); continue
+        if mine: out.append(ln)
+    return "\n".join(out)
+
+ATTR = r'(?:\s*__attribute__\s*\(\((?:[^()]|\([^()]*\))*\)\))*'
+
 def struct_members(rel):
-    """(type expression, [members]) for every struct/union the header declares with a usable name"""
-    src = strip_comments(open(os.path.join(REPO, "include", rel)).read())
+    """(type expression, [members]) for every struct/union the header declares with a usable name.
+    Works on the preprocessed text, so that attribute macros and the like are already expanded."""
+    src = own_preprocessed(rel)
     out = []
-    for m in re.finditer(r'typedef\s+(struct|union)\s*(\w*)\s*\{([^{}]*)\}\s*(?:__attribute__\s*\(\([^)]*\)\)\s*)?(\w+)\s*;', src):
+    for m in re.finditer(r'typedef\s+(struct|union)' + ATTR + r'\s*(\w*)\s*\{([^{}]*)\}' + ATTR + r'\s*(\w+)\s*;', src):
         mem = [mm.group(1) for mm in re.finditer(r'(\w+)\s*(?:\[[^\]]*\])?\s*;', m.group(3))]
         out.append((m.group(4), mem))
-    for m in re.finditer(r'(?:^|\n)\s*(struct|union)\s+(\w+)\s*\{([^{}]*)\}\s*(?:__attribute__\s*\(\([^)]*\)\)\s*)?;', src):
+    for m in re.finditer(r'(?:^|\n|;)\s*(struct|union)' + ATTR + r'\s+(\w+)\s*\{([^{}]*)\}' + ATTR + r'\s*;', src):
         mem = [mm.group(1) for mm in re.finditer(r'(\w+)\s*(?:\[[^\]]*\])?\s*;', m.group(3))]
         out.append(("%s %s" % (m.group(1), m.group(2)), mem))
     return out
